@@ -318,6 +318,65 @@ func runC15(r *core.Run) {
 			s.Done()
 		}
 	}
+	// many headings: the size of the id table grows past every small threshold. (a) n copies of one heading for every n;
+	// (b) k distinct headings followed by a repeat of the j-th, for every j ≤ k
+	{
+		maxN := core.Pick(r, 150, 400)
+		maxK := core.Pick(r, 40, 80)
+		units := []string{"# a", "a\n===", "## a-1", "# あ", "#", "> # a", "- # a"}
+		for _, cn := range []string{"core+autoid", "all+autoid+xhtml"} {
+			cfg := core.MustCfg(cn)
+			s := r.Sub("many-headings/"+cn, fmt.Sprintf("(a) for each unit in %q and EVERY n = 1..%d: the unit repeated n times (blank lines between); (b) for EVERY k = 1..%d and j = 1..k: headings '# h1' … '# hk' followed by a second '# hj' (also with the repeat written in Setext form): every heading has a non-empty id, all ids pairwise distinct, under %s", units, maxN, maxK, cn))
+			type job struct {
+				unit string
+				k    int
+			}
+			var jobs []job
+			for _, u := range units {
+				jobs = append(jobs, job{unit: u})
+			}
+			for k := 1; k <= maxK; k++ {
+				jobs = append(jobs, job{k: k})
+			}
+			core.ForEachIndex(len(jobs), core.Workers(), func(w int) func(int) {
+				cv := core.NewConv(cfg)
+				return func(i int) {
+					j := jobs[i]
+					if j.unit != "" {
+						var b strings.Builder
+						for n := 1; n <= maxN; n++ {
+							b.WriteString(j.unit)
+							b.WriteString("\n\n")
+							if h := c15Generic(s, cv, []byte(b.String())); h != 0 {
+								s.Distinct(h)
+							}
+						}
+						s.AddSample(fmt.Sprintf("(%q LF LF)^n, n=1..%d", j.unit, maxN))
+						return
+					}
+					var b strings.Builder
+					for x := 1; x <= j.k; x++ {
+						fmt.Fprintf(&b, "# h%d\n\n", x)
+					}
+					for x := 1; x <= j.k; x++ {
+						for form := 0; form < 2; form++ {
+							doc := b.String() + fmt.Sprintf("# h%d\n", x)
+							if form == 1 {
+								doc = b.String() + fmt.Sprintf("h%d\n---\n", x)
+							}
+							if h := c15Generic(s, cv, []byte(doc)); h != 0 {
+								s.Distinct(h)
+							}
+						}
+					}
+				}
+			}, r.Expired)
+			s.Bound = fmt.Sprintf("%d units × n≤%d; k≤%d × j≤k × 2 forms", len(units), maxN, maxK)
+			s.States.Store(s.Evals.Load())
+			s.Transitions.Store(s.Evals.Load())
+			s.Done()
+		}
+	}
 	// unstructured: any document over block tokens
 	alpha := core.Union(core.ABlock, []string{"A", "\t", "_", "[", "]"})
 	for _, cn := range []string{"core+autoid", "all+autoid"} {
